@@ -437,6 +437,13 @@ def apply_rewrites(src, mask, it, ed, stats, spec_entry):
     for (s0, e0, end0, wfn) in r7b:
         ed.replace(s0, end0, 'crate::spec::%s(%s)' % (wfn, r7_rewrite_string(src[s0:e0])))
         stats['R7_cast_f32'] = stats.get('R7_cast_f32', 0) + 1
+    # R7e: `X as i32` where X is bound by `Some(X) = ...float_stack.pop()/copy(..)/get(..)` in this function (hence an f32) => f32_to_i32(X)
+    for fm in re.finditer(r'Some\(\s*([a-z_]\w*)\s*\)\s*=\s*[\w.]*float_stack\s*\.\s*(?:pop|copy|get)\s*\(', body):
+        for m in re.finditer(r'(?<![\w.])%s\s+as\s+i32\b' % re.escape(fm.group(1)), body):
+            if mask[lo + m.start()] != ord('c'): continue
+            if any(x <= lo + m.start() and lo + m.end() <= y + 1 for x, y in r4_ranges): continue
+            ed.replace(lo + m.start(), lo + m.end(), 'crate::spec::f32_to_i32(%s)' % fm.group(1))
+            stats['R7_cast_f32'] = stats.get('R7_cast_f32', 0) + 1
     # R7c: the constant `std::f32::consts::PI` => `f32_pi()` (wrapper returning the constant; Verus has no spec for core::f32::consts)
     for m in re.finditer(r'\b(?:std|core)::f32::consts::PI\b', body):
         if mask[lo + m.start()] != ord('c'): continue
